@@ -61,6 +61,8 @@ def op (d : D) (o : String) : D :=
   | ["w", k] => { d with fileVer := k.toNat! }
   | ["rm"] => { d with fileVer := 0 }
   | ["load"] =>
+    -- versions from 100 on compile but are refused by the store: nothing is swapped
+    if d.fileVer ≥ 100 then d else
     if d.fileVer = d.loadedVer then d
     else
       -- an unload is a swap to a handle that is never given a line
@@ -71,6 +73,7 @@ def op (d : D) (o : String) : D :=
   | ["rel", n] => release d n.toNat!
   | ["lq", n] => if d.blocked then d else if d.loaded then tryHand (act d (.take n.toNat!)) else d
   | ["reload"] =>
+    if d.fileVer ≥ 100 ∧ ¬ d.blocked then { d with obs := d.obs ++ ["reload=returned"] } else
     if d.blocked then
       -- queued behind the reload that is waiting for the old VM
       { d with reloadVer := d.fileVer, reloadLoaded := d.fileVer != 0, extraSwaps := d.extraSwaps + 1,
